@@ -38,6 +38,13 @@ func contractErr(err error) bool {
 	return false
 }
 
+// symDur is an arbitrary duration in [1ns, 1h] (solver variable).
+func symDur(name string) time.Duration {
+	d := verif.Duration(name)
+	verif.Assume(verif.And(d >= 1, d <= time.Hour))
+	return d
+}
+
 func doOp(sock mangos.Socket, proto string, op int, lab string) {
 	var err error
 	switch opNames[op] {
@@ -55,11 +62,13 @@ func doOp(sock mangos.Socket, proto string, op int, lab string) {
 	case "set-writeq":
 		err = sock.SetOption(mangos.OptionWriteQLen, 2)
 	case "set-ttl":
-		err = sock.SetOption(mangos.OptionTTL, 5)
+		t := verif.Int("ttl")
+		verif.Assume(verif.And(t >= 1, t <= 255))
+		err = sock.SetOption(mangos.OptionTTL, t)
 	case "set-recvdl":
-		err = sock.SetOption(mangos.OptionRecvDeadline, time.Second)
+		err = sock.SetOption(mangos.OptionRecvDeadline, symDur("recv-deadline"))
 	case "set-senddl":
-		err = sock.SetOption(mangos.OptionSendDeadline, time.Second)
+		err = sock.SetOption(mangos.OptionSendDeadline, symDur("send-deadline"))
 	case "set-besteffort":
 		err = sock.SetOption(mangos.OptionBestEffort, true)
 	case "get-readq":
@@ -69,9 +78,9 @@ func doOp(sock mangos.Socket, proto string, op int, lab string) {
 	case "get-ttl":
 		_, err = sock.GetOption(mangos.OptionTTL)
 	case "set-retry":
-		err = sock.SetOption(mangos.OptionRetryTime, time.Second)
+		err = sock.SetOption(mangos.OptionRetryTime, symDur("retry"))
 	case "set-survey":
-		err = sock.SetOption(mangos.OptionSurveyTime, time.Second)
+		err = sock.SetOption(mangos.OptionSurveyTime, symDur("survey"))
 	case "set-failnopeers":
 		err = sock.SetOption(mangos.OptionFailNoPeers, true)
 	case "set-maxrx":
